@@ -148,6 +148,18 @@ def worlds(tier):
             for dname, reads in read_designs(p, k, T):
                 for B in (0, 4):
                     yield mk(seed, p, k, m, dname, reads, dict(block_cut_sensitivity=B, tag="PS", min_overlap=3), extra=False)
+    # two records on one coordinate with different ALT alleles (the second one is not read and must not be phased)
+    for p, k in [(2, 3), (3, 3), (4, 3)] + ([(3, 4), (6, 3)] if T else []):
+        mats = list(hap_matrices(p, k))
+        mats = mats[:: max(1, len(mats) // (60 if T else 12))]
+        for m in mats:
+            for dname, reads in read_designs(p, k, T)[:1]:
+                for tag in ("PS", "HP"):
+                    for kind in ("hom", "het1", "hetmost"):
+                        for at in (0, 1):
+                            inst = mk(seed, p, k, m, dname, reads, dict(block_cut_sensitivity=4, tag=tag))
+                            inst["world"]["dup"] = [kind, at]
+                            yield inst
     # pre-phasing and distrust (pass-through clauses only under distrust)
     for p, k in [(3, 4), (4, 3)]:
         mats = list(hap_matrices(p, k))[:: 40 if not T else 10]
@@ -199,6 +211,25 @@ def materialize(world, d):
             t = rec["line"].split("\t")
             t[9] = "/".join(sorted(("1" if a == "2" else a) for a in t[9].split("/")))
             lines.append("\t".join(t))
+        with open(paths["vcf"], "w") as f:
+            f.write("\n".join(lines) + "\n")
+    if world.get("dup"):
+        # a second record on the coordinate of a heterozygous record (another ALT allele, as after `bcftools norm -m-`):
+        # ID "dup"; the reader keeps the first record of a coordinate, the second one must be passed through
+        kind, at = world["dup"]
+        parsed = synth.parse_vcf(paths["vcf"])
+        lines = list(parsed["header"]) + ["\t".join(["#CHROM", "POS", "ID", "REF", "ALT", "QUAL", "FILTER", "INFO", "FORMAT"] + parsed["samples"])]
+        P = world["ploidy"]
+        for ri, rec in enumerate(parsed["records"]):
+            lines.append(rec["line"])
+            if ri == world["het_index"][at]:
+                t = rec["line"].split("\t")
+                t[2] = "dup"
+                t[4] = [b for b in "ACGT" if b != t[3] and b not in t[4].split(",")][0]
+                gt = {"hom": ["1"] * P, "het1": ["0"] * (P - 1) + ["1"], "hetmost": ["0"] + ["1"] * (P - 1)}[kind]
+                t[8] = "GT"
+                t[9:] = ["/".join(gt)] * len(parsed["samples"])
+                lines.append("\t".join(t))
         with open(paths["vcf"], "w") as f:
             f.write("\n".join(lines) + "\n")
     if not world["prephase"]:
@@ -256,6 +287,14 @@ def judge(inst):
     if len(inp["records"]) != len(res["records"]):
         return [V("record-count", f"{len(inp['records'])} in, {len(res['records'])} out")], False
     nphased_total = 0
+    if world.get("dup"):
+        for a, b in zip(inp["records"], res["records"]):
+            if a["id"] == "dup" and a["line"] != b["line"]:
+                viols.append(V("duplicate-position", f"second record on coordinate {a['pos']} (ALT {a['alt']}) is not passed through: {a['line'].split(chr(9))[8:]} -> {b['line'].split(chr(9))[8:]}"))
+        for pr in (inp, res):
+            pr["records"] = [r for r in pr["records"] if r["id"] != "dup"]
+        if len(inp["records"]) != len(res["records"]):
+            return viols + [V("record-count", "records lost next to a duplicate position")], False
     for ri, (a, b) in enumerate(zip(inp["records"], res["records"])):
         for key in ("chrom", "pos", "id", "ref", "alt", "filter", "info"):
             if a[key] != b[key]:
